@@ -273,7 +273,8 @@ PROPS = {
                   "BluetoeModel.Cccd.shape_invariant",
                   "BluetoeModel.Cccd.cccd_never_oob",
                   "BluetoeModel.Cccd.step_keeps_shape",
-                  "BluetoeModel.Cccd.access_in_bounds"],
+                  "BluetoeModel.Cccd.access_in_bounds",
+                  "BluetoeModel.Cccd.attr_clause_exact"],
         imports=["BluetoeModel.Cccd.Props", "BluetoeModel.Cccd.PropsOob"],
         run=run_c09,
         level="proof",
